@@ -5,6 +5,7 @@ pub mod borrows;
 pub mod fixedgen;
 pub mod format;
 pub mod gen;
+pub mod mutate;
 pub mod render;
 pub mod ty;
 pub mod val;
